@@ -53,7 +53,7 @@ def snap(x):
 def run(ctx):
     ctx.rule = ("(A) random Tensor programs (all ops of the C01/C14 generators incl. ncon, fuse, svd, qr, masks): every pre-existing value snapshotted before/after "
                 "every step; (B) in-place API on sources of copy/clone/shallow_copy/transpose/conj…: observers of an item assignment == objects sharing the array == "
-                "Lean heap model; (C) MPS/MPO methods and algorithms; (D) PEPS / DoublePepsTensor methods; non-trivial = the step has >=1 tensor operand with blocks")
+                "Lean heap model; (C) MPS/MPO methods and algorithms; (D) PEPS / DoublePepsTensor methods; non-trivial = the step has >=1 tensor operand with blocks; (A2) table of ~70 value-returning public functions: operand, a view sharing its storage, the second operand and dictionaries handed to de-serialisers bit-identical afterwards; MPS states with a central block; option dictionaries and operator/projector containers passed to algorithms and environment methods are operands too")
     part_tensor_programs(ctx)
     part_function_table(ctx)
     part_inplace(ctx)
